@@ -121,4 +121,11 @@ MUTANTS = [
     M("vanish-block-request-activity", FETCH,
       "    def _block_request_activity(self, share, shnum, state, block=None, f=None):",
       "    def _block_request_activityX(self, share, shnum, state, block=None, f=None):", "ANALYSIS-ERROR"),
+    # ---- C03.6 (added after seeded change C03-A)
+    M("dead-shares-handed-to-new-fetcher", "src/allmydata/immutable/downloader/node.py",
+      "            active_shares = [s for s in self._shares if s.is_alive()]\n            fetcher.add_shares(active_shares) # this triggers the loop\n",
+      "            fetcher.add_shares(list(self._shares)) # this triggers the loop\n", "C03.6"),
+    M("benign-alive-filter-inline", "src/allmydata/immutable/downloader/node.py",
+      "            active_shares = [s for s in self._shares if s.is_alive()]\n            fetcher.add_shares(active_shares) # this triggers the loop\n",
+      "            fetcher.add_shares([sh for sh in self._shares if sh.is_alive()])\n", None),
 ]
